@@ -388,6 +388,40 @@ func runC08(r *Run) {
 		r.st.Evaluations++
 		f.close()
 	}
+	// the session resume is answered later than the DIAL timeout but well inside the AUTH timeout: it counts
+	{
+		s := &session{tc: newTestClient(), v: 1, trans: "tcp"}
+		s.tcp = newTCPPeer()
+		errc := make(chan error, 1)
+		go func() {
+			errc <- s.tc.dial(s.tcp.url(), 1, client.DialTimeout(300*time.Millisecond), client.AuthTimeout(3*time.Second), client.Keepalive(time.Hour), client.KeepaliveTimeout(2*time.Hour),
+				client.MaxReconnect(2), client.WithAuthTokenGetter(func() (string, error) { return "tok", nil }))
+		}()
+		pc := s.tcp.accept(3 * time.Second)
+		if pc != nil && pc.readHandshake(time.Second) {
+			if q := pc.readFrame(2 * time.Second); q != nil {
+				pc.send(respFrame(1, 2, q.Rid, 0, authRespBody("s1", 600000)))
+			}
+			if err := <-errc; err == nil {
+				pc.close()
+				p2 := s.tcp.accept(3 * time.Second)
+				if p2 != nil && p2.readHandshake(time.Second) {
+					if q := p2.readFrame(2 * time.Second); q != nil {
+						time.Sleep(700 * time.Millisecond)
+						p2.send(respFrame(1, q.Cmd, q.Rid, 0, authRespBody("s1", 600000)))
+					}
+					ok := waitUntil(1500*time.Millisecond, func() bool { return s.tc.reconCount() == 1 })
+					if !ok || s.tcp.nconns() != 2 || len(s.tc.closeCallbacks()) != 0 {
+						r.violate(Violation{What: fmt.Sprintf("a session resume answered after 700 ms (dial timeout 300 ms, auth timeout 3 s) did not complete the recovery: %d connections, %d reconnect callbacks, close callbacks %v", s.tcp.nconns(), s.tc.reconCount(), s.tc.closeCallbacks()),
+							Case: "tcp: drop, RECONNECT answered ok after 700 ms, MaxReconnect 2"})
+					}
+				}
+				r.st.Evaluations++
+				r.count("c08.slow-resume-answer")
+			}
+		}
+		s.close()
+	}
 	// a connection that dies between the dialer's return and the registration of the client's close callback
 	// (dial.before-onclose gate): the loss must still reach the recovery
 	for _, trans := range []string{"tcp", "ws"} {
